@@ -163,6 +163,25 @@ def conn_design(case, reverse=False):
     return d
 
 
+def conn_design_twice(case):
+    """one parent bundle instance tied to TWO bundle-valued ports of one child instance, and one of its leaves tied to two scalar ports of another"""
+    bundles = case["bundles"]
+    bi = dict(case["bi"])
+    bi["port"] = True
+    bj = dict(bi, n="bj")
+    lv = leaves_of(bundles, bi["of"])
+    child = U.mod([], U.bprobes("bi", lv) + U.bprobes("bj", lv), [bi, bj], probes=False)
+    insts = [U.inst("c", "Child", [("bi", Bund("pb")), ("bj", Bund("pb"))])]
+    mods = {"Child": child}
+    if lv:
+        path, w = lv[0]
+        mods["Two"] = U.mod([U.sig("x", w, True), U.sig("y", w, True)], [U.inst("lx", "L1", [("a", U.bit("x", w, 0))], k="ext"),
+                                                                          U.inst("ly", "L1", [("a", U.bit("y", w, w - 1))], k="ext")], probes=False)
+        insts.append(U.inst("t", "Two", [("x", Bref("pb", *path)), ("y", Bref("pb", *path))]))
+    mods["Top"] = U.mod([], insts + U.bprobes("pb", lv), [U.bnd("pb", bi["of"])], probes=False)
+    return U.design(mods, bundles=bundles)
+
+
 def run(tier, seed, replay_file=None):
     o = Outcome(PID, tier, seed)
     o.rule = ("single-path cases: depth <= 3 x flips (none/ctor/fn per level) x 6 leaf kinds x role relation x port/internal x width - exhaustive; "
@@ -203,6 +222,7 @@ def run(tier, seed, replay_file=None):
     # connection agreement on the trees
     tail = cases[-(300 if tier == "quick" else 3000):]
     cds = [("C10_tree", conn_design(c)) for c in tail] + [("C10_tree_anon_reversed", conn_design(c, True)) for c in tail]
+    cds += [("C10_tree_twice", conn_design_twice(c)) for c in tail[:len(tail) // 2]]
     jobs, cevs, cverd, gen = conn.run_designs(cds, "c10conn", styles=("proc",), entries=())
     o.transitions += gen
     for tid, (ok, clause) in cverd.items():
@@ -210,6 +230,11 @@ def run(tier, seed, replay_file=None):
         o.cover["conn_" + c] = o.cover.get("conn_" + c, 0) + 1
         if c in ("leaf_table", "observables", "partition"):
             o.violations.append(Violation(clause="connection_" + c, case={"D": cevs[tid]["D"]}, features=["tree_connection"]))
+        if c == "rejected_valid":
+            # these are plain connections of a bundle instance (or one of its leaves) to the ports of a child - what the property is about:
+            # a refusal means the two sides did not come to agree
+            o.violations.append(Violation(clause="connection_rejected", case={"D": cevs[tid]["D"]}, features=["tree_connection"],
+                                          detail=cevs[tid].get("exc", "")))
     o.traces += len(cds)
     o.required_cover = ["port", "internal", "flipped_instance", "conn_ok_valid"]
     for i in rnd.sample(range(len(cases)), 2):
